@@ -14,8 +14,8 @@ use crate::Ctx;
 use mdv_core::mdparse::{Dump, NormOpts};
 use mdv_core::{json, Report, Value};
 
-const CHANGES: [&str; 13] = ["none", "add-thread", "exit-thread", "rewrite-app-region", "aborted-dump-first", "reconfigure-app-memory", "reconfigure-crash-context", "reconfigure-user-mappings", "reconfigure-principal-mapping", "retarget-to-another-process", "target-killed-unreaped", "shrink-principal-mapping", "regrow-principal-mapping"];
-const OPTSETS: [&str; 9] = ["plain", "crash-context", "app-memory", "skip-unreferenced", "size-limit", "all", "blamed-thread-that-may-exit", "skip-unreferenced-principal-in-data-region", "crash-context-ip-in-data-region"];
+const CHANGES: [&str; 14] = ["none", "add-thread", "exit-thread", "rewrite-app-region", "aborted-dump-first", "reconfigure-app-memory", "reconfigure-crash-context", "reconfigure-user-mappings", "reconfigure-principal-mapping", "retarget-to-another-process", "target-killed-unreaped", "shrink-principal-mapping", "regrow-principal-mapping", "reconfigure-size-limit"];
+const OPTSETS: [&str; 11] = ["plain", "crash-context", "app-memory", "skip-unreferenced", "size-limit", "all", "blamed-thread-that-may-exit", "skip-unreferenced-principal-in-data-region", "crash-context-ip-in-data-region", "size-limit-with-25-threads", "sanitize-only"];
 
 fn opts(set: usize, b: &Built, env: &Env) -> DumpOpts {
     let mut o = DumpOpts::default();
@@ -28,7 +28,7 @@ fn opts(set: usize, b: &Built, env: &Env) -> DumpOpts {
             o.skip_unref = true;
             o.principal = Some(b.p.threads[0].page as usize + 16);
         }
-        4 => o.size_limit = Some(1),
+        4 | 9 => o.size_limit = Some(1),
         5 => {
             o.crash = Some(crash);
             o.app_memory = app;
@@ -38,6 +38,7 @@ fn opts(set: usize, b: &Built, env: &Env) -> DumpOpts {
             o.sanitize = true;
         }
         6 => o.blamed = Some(b.p.threads[1].tid),
+        10 => o.sanitize = true,
         7 => {
             // the principal mapping is the 3-page data region; the extra spin thread's stack holds a pointer
             // into its LAST page (see run_history)
@@ -83,7 +84,8 @@ pub struct Res {
 
 fn run_history(set: usize, hist: &[usize]) -> Res {
     let case = json!({"option_set": OPTSETS[set], "history": hist.iter().map(|c| CHANGES[*c]).collect::<Vec<_>>()});
-    let mut shape = Shape::threads(3);
+    // option set 9: enough threads for the size limit to shorten the stacks of list positions >= 20
+    let mut shape = Shape::threads(if set == 9 { 25 } else { 3 });
     shape.patterns.push((3, "hole".into(), "rw".into()));
     let mut b = build(&shape);
     let spin_tid: u64;
@@ -199,13 +201,23 @@ fn run_history(set: usize, hist: &[usize]) -> Res {
             9 => {
                 // the caller points the same writer at another process (public fields): only for the
                 // option sets whose configuration does not hold addresses of the first target
-                if set == 0 || set == 4 {
+                if set == 0 || set == 4 || set == 10 {
                     let b2 = build(&shape);
                     reused.process_id = b2.p.pid;
                     reused.blamed_thread = b2.p.pid;
                     b = b2;
                     o.blamed = None;
                 }
+            }
+            13 => {
+                // the caller changes the size limit between two requests: exceeded -> none -> far away -> exceeded
+                let next = match o.size_limit {
+                    Some(1) => None,
+                    None => Some(1u64 << 40),
+                    Some(_) => Some(1),
+                };
+                o.size_limit = next;
+                reused.minidump_size_limit = next;
             }
             11 if set == 8 => {
                 let _ = std::fs::OpenOptions::new().write(true).open(backing.0.as_ref().unwrap()).and_then(|f| f.set_len(4096));
@@ -339,11 +351,17 @@ pub fn run(ctx: &Ctx, rep: &mut Report) {
                     if c >= 5 && c <= 10 && (specials >= 2 || (specials == 1 && !(ctx.tier.is_thorough() && h.len() < 3))) {
                         continue;
                     }
-                    if c == 9 && !(set == 0 || set == 4) {
+                    if c == 9 && !(set == 0 || set == 4 || set == 10) {
                         continue;
                     }
                     if h.contains(&10) {
                         continue; // nothing follows the death of the target
+                    }
+                    if c == 13 && set != 9 {
+                        continue;
+                    }
+                    if set == 9 && !(c == 0 || c == 1 || c == 13) {
+                        continue; // this option set is about the size limit changing between requests
                     }
                     if (c == 11 || c == 12) && !(set == 7 || set == 8) {
                         continue;
